@@ -411,3 +411,42 @@ pub fn mont_patterns(p: &BigUint, nbytes: usize, level: u8) -> Vec<BigUint> {
     }
     dedup(v).iter().map(|m| f.mul(m, &r_inv)).collect()
 }
+
+/// Borrow-chain classes of the conditional negation p - w (and of w - p): for every limb position i
+/// (32- and 64-bit views) the case "w_i == p_i with a borrow coming in from below": limb i equals
+/// p's, the part below is p's low part + 1 + j (j < nlow, both parities) or all ones, the part above is 0 or half
+/// of p's high part (so the value is < p and otherwise unremarkable).
+pub fn neg_family(p: &BigUint, nbytes: usize) -> Vec<BigUint> {
+    neg_family_n(p, nbytes, 8)
+}
+pub fn neg_family_n(p: &BigUint, nbytes: usize, nlow: u32) -> Vec<BigUint> {
+    let mut v: Vec<BigUint> = vec![];
+    for w in [32usize, 64] {
+        let n = nbytes * 8 / w;
+        let mask = (BigUint::one() << w) - 1u32;
+        for i in 1..n {
+            let pi = (p >> (w * i)) & &mask;
+            let low_mask = (BigUint::one() << (w * i)) - 1u32;
+            let plow = p & &low_mask;
+            let phi = p >> (w * (i + 1));
+            let mut lows: Vec<BigUint> = vec![low_mask.clone()];
+            for j in 0..nlow {
+                let l = &plow + 1u32 + j;
+                if l <= low_mask {
+                    lows.push(l);
+                }
+            }
+            for hi in [BigUint::zero(), &phi >> 1] {
+                for l in &lows {
+                    let x = (&hi << (w * (i + 1))) + (&pi << (w * i)) + l;
+                    if x < *p {
+                        v.push(x.clone());
+                        // and the mirrored case for p - x
+                        v.push(p - &x);
+                    }
+                }
+            }
+        }
+    }
+    dedup(v)
+}
